@@ -4,6 +4,8 @@ import (
 	"fmt"
 	"strings"
 	"time"
+
+	"github.com/relex/slog-agent/util"
 )
 
 // parseRFC3339Timestamp parse timestamp in RFC3339 format with fraction part of variable size
@@ -46,7 +48,8 @@ func parseRFC3339Timestamp(timeStr string, timezoneCache map[string]*time.Locati
 			}
 			tzName, tzOffset := z.Zone()
 			location = time.FixedZone(tzName, tzOffset)
-			timezoneCache[tzStr] = location
+			// the key must be a copy: tzStr points into the record's (pooled, reused) buffer
+			timezoneCache[util.DeepCopyString(tzStr)] = location
 		}
 	} else {
 		location = time.Local
